@@ -13,12 +13,14 @@ package cosmoslane
 // 991c — a Cosmos-lane tx must not contain any Ethereum message
 // ---------------------------------------------------------------------------------------------
 //@ func (ead CLRejectEthereumMsgsDecorator) AnteHandle(ctx sdk.Context, tx sdk.Tx, simulate bool, next sdk.AnteHandler) (newCtx sdk.Context, err error)
+//@   requires tx != nil && txUnpacked(payload(tx))
 //@   modifies everything
+//@   panics[C20.own_code_panics] only_if hcPanics[hcN[0]]
 //@   ensures[C07.eth_passes] single(payload(tx)) ==> (hcN[0] == old(hcN[0]) + 1 && hcKind[old(hcN[0])] == 0 && hcCallee[old(hcN[0])] == next && hcCtx[old(hcN[0])] == ctx && hcTxTag[old(hcN[0])] == typeof(tx) && hcTx[old(hcN[0])] == payload(tx) && hcSim[old(hcN[0])] == simulate && newCtx == hcResCtx[old(hcN[0])] && typeof(err) == hcResErrTag[old(hcN[0])] && payload(err) == hcResErr[old(hcN[0])] && hcSawFlagNonce[old(hcN[0])] == old(trFlagNonce[layer(ctx)]) && hcSawFlagPaid[old(hcN[0])] == old(trFlagPaid[layer(ctx)]) && hcSawSeq[old(hcN[0])] == old(acctSeq[layer(ctx)]))
 //@   ensures[C07.mixed_rejected] (!single(payload(tx)) && hasEthMsg(payload(tx))) ==> (hcN[0] == old(hcN[0]) && err != nil && newCtx == ctx)
 //@   ensures[C07.cosmos_continues] (!single(payload(tx)) && !hasEthMsg(payload(tx))) ==> (hcN[0] == old(hcN[0]) + 1 && hcKind[old(hcN[0])] == 0 && hcCallee[old(hcN[0])] == next && hcCtx[old(hcN[0])] == ctx && hcTxTag[old(hcN[0])] == typeof(tx) && hcTx[old(hcN[0])] == payload(tx) && hcSim[old(hcN[0])] == simulate && newCtx == hcResCtx[old(hcN[0])] && typeof(err) == hcResErrTag[old(hcN[0])] && payload(err) == hcResErr[old(hcN[0])] && hcSawFlagNonce[old(hcN[0])] == old(trFlagNonce[layer(ctx)]) && hcSawFlagPaid[old(hcN[0])] == old(trFlagPaid[layer(ctx)]) && hcSawSeq[old(hcN[0])] == old(acctSeq[layer(ctx)]))
 //@ loop 1
-//@   invariant -1 <= rangeindex && (forall j int :: (0 <= j && j <= rangeindex) ==> !isEthMsgAt(payload(tx), j))
+//@   invariant -1 <= rangeindex && rangeindex < txNMsgs(payload(tx)) && hcN[0] == old(hcN[0]) && (forall j int :: (0 <= j && j <= rangeindex) ==> !isEthMsgAt(payload(tx), j))
 
 // ---------------------------------------------------------------------------------------------
 // 992c — nested-message screening
@@ -46,16 +48,20 @@ package cosmoslane
 //@ func (rmd CLRejectAuthzMsgsDecorator) checkDisabledMsgs(msgs []sdk.Msg, nestedLvl int) (err error)
 //@   requires forall m *authz.MsgExec :: execListOf(m) == base(m.Msgs)
 //@   requires nestedLvl >= 1 && rmd.disabledNestedMsgs != nil
+//@   requires forall i int :: (0 <= i && i < len(msgs)) ==> (msgs[i] != nil && payload(msgs[i]) != nil)
 //@   modifies nothing
+//@   panics[C20.screening_never_panics] never
 //@   ensures[C07.clean_accepts,C16.clean_accepts] err == nil ==> (nestedLvl <= 3 && (forall i int :: (0 <= i && i < len(msgs)) ==> cleanMsg(keys(rmd.disabledNestedMsgs), typeof(msgs[i]), payload(msgs[i]), nestedLvl)))
 //@   ensures[C07.clean_rejects,C16.clean_rejects] err != nil ==> !(nestedLvl <= 3 && (forall i int :: (0 <= i && i < len(msgs)) ==> cleanMsg(keys(rmd.disabledNestedMsgs), typeof(msgs[i]), payload(msgs[i]), nestedLvl)))
 //@ loop 1
-//@   invariant -1 <= rangeindex && nestedLvl <= 3 && (forall j int :: (0 <= j && j <= rangeindex) ==> cleanMsg(keys(rmd.disabledNestedMsgs), typeof(msgs[j]), payload(msgs[j]), nestedLvl))
+//@   invariant -1 <= rangeindex && rangeindex < len(msgs) && nestedLvl <= 3 && (forall j int :: (0 <= j && j <= rangeindex) ==> cleanMsg(keys(rmd.disabledNestedMsgs), typeof(msgs[j]), payload(msgs[j]), nestedLvl))
 
 //@ func (rmd CLRejectAuthzMsgsDecorator) AnteHandle(ctx sdk.Context, tx sdk.Tx, simulate bool, next sdk.AnteHandler) (newCtx sdk.Context, err error)
 //@   requires forall m *authz.MsgExec :: execListOf(m) == base(m.Msgs)
 //@   requires rmd.disabledNestedMsgs != nil
+//@   requires tx != nil && txUnpacked(payload(tx))
 //@   modifies everything
+//@   panics[C20.own_code_panics] only_if hcPanics[hcN[0]]
 //@   ensures[C07.eth_passes] single(payload(tx)) ==> (hcN[0] == old(hcN[0]) + 1 && hcKind[old(hcN[0])] == 0 && hcCallee[old(hcN[0])] == next && hcCtx[old(hcN[0])] == ctx && hcTxTag[old(hcN[0])] == typeof(tx) && hcTx[old(hcN[0])] == payload(tx) && hcSim[old(hcN[0])] == simulate && newCtx == hcResCtx[old(hcN[0])] && typeof(err) == hcResErrTag[old(hcN[0])] && payload(err) == hcResErr[old(hcN[0])] && hcSawFlagNonce[old(hcN[0])] == old(trFlagNonce[layer(ctx)]) && hcSawFlagPaid[old(hcN[0])] == old(trFlagPaid[layer(ctx)]) && hcSawSeq[old(hcN[0])] == old(acctSeq[layer(ctx)]))
 //@   ensures[C07.cosmos_next_or_reject] !single(payload(tx)) ==> ((hcN[0] == old(hcN[0]) + 1 && hcKind[old(hcN[0])] == 0 && hcCallee[old(hcN[0])] == next && hcCtx[old(hcN[0])] == ctx && hcTxTag[old(hcN[0])] == typeof(tx) && hcTx[old(hcN[0])] == payload(tx) && hcSim[old(hcN[0])] == simulate && newCtx == hcResCtx[old(hcN[0])] && typeof(err) == hcResErrTag[old(hcN[0])] && payload(err) == hcResErr[old(hcN[0])] && hcSawFlagNonce[old(hcN[0])] == old(trFlagNonce[layer(ctx)]) && hcSawFlagPaid[old(hcN[0])] == old(trFlagPaid[layer(ctx)]) && hcSawSeq[old(hcN[0])] == old(acctSeq[layer(ctx)])) || (hcN[0] == old(hcN[0]) && err != nil && newCtx == ctx))
 //@   ensures[C07.nested_clean,C16.nested_clean] !single(payload(tx)) ==> ((hcN[0] == old(hcN[0]) + 1) == (forall i int :: (0 <= i && i < txNMsgs(payload(tx))) ==> cleanMsg(old(keys(rmd.disabledNestedMsgs)), txMsgTag(payload(tx), i), txMsgObj(payload(tx), i), 1)))
@@ -80,10 +86,13 @@ package cosmoslane
 //@   requires forall m *vestingtypes.MsgCreateVestingAccount :: vestTo(type(*vestingtypes.MsgCreateVestingAccount), m) == m.ToAddress
 //@   requires forall m *vestingtypes.MsgCreatePeriodicVestingAccount :: vestTo(type(*vestingtypes.MsgCreatePeriodicVestingAccount), m) == m.ToAddress
 //@   requires forall m *vestingtypes.MsgCreatePermanentLockedAccount :: vestTo(type(*vestingtypes.MsgCreatePermanentLockedAccount), m) == m.ToAddress
+//@   requires tx != nil && txUnpacked(payload(tx))
 //@   requires forall a bytes :: {vauthProof[layer(ctx)][a]} vauthProof[layer(ctx)][a] == kvHas[kvId(layer(ctx), payload(vmd.vak.storeKey))][vauthProofKey(a)]
 //@   modifies everything
+// own panics: sdk.MustAccAddressFromBech32 on a to_address that is not bech32 (finding A2: nothing validates it earlier)
+//@   panics[C20.own_code_panics] only_if hcPanics[hcN[0]] || (!single(payload(tx)) && (exists i int :: 0 <= i && i < txNMsgs(payload(tx)) && isVestingCreate(txMsgTag(payload(tx), i)) && !bech32Valid(vestTo(txMsgTag(payload(tx), i), txMsgObj(payload(tx), i)))))
 //@   ensures[C07.eth_passes] single(payload(tx)) ==> (hcN[0] == old(hcN[0]) + 1 && hcKind[old(hcN[0])] == 0 && hcCallee[old(hcN[0])] == next && hcCtx[old(hcN[0])] == ctx && hcTxTag[old(hcN[0])] == typeof(tx) && hcTx[old(hcN[0])] == payload(tx) && hcSim[old(hcN[0])] == simulate && newCtx == hcResCtx[old(hcN[0])] && typeof(err) == hcResErrTag[old(hcN[0])] && payload(err) == hcResErr[old(hcN[0])] && hcSawFlagNonce[old(hcN[0])] == old(trFlagNonce[layer(ctx)]) && hcSawFlagPaid[old(hcN[0])] == old(trFlagPaid[layer(ctx)]) && hcSawSeq[old(hcN[0])] == old(acctSeq[layer(ctx)]))
 //@   ensures[C16.cosmos_next_or_reject] !single(payload(tx)) ==> ((hcN[0] == old(hcN[0]) + 1 && hcKind[old(hcN[0])] == 0 && hcCallee[old(hcN[0])] == next && hcCtx[old(hcN[0])] == ctx && hcTxTag[old(hcN[0])] == typeof(tx) && hcTx[old(hcN[0])] == payload(tx) && hcSim[old(hcN[0])] == simulate && newCtx == hcResCtx[old(hcN[0])] && typeof(err) == hcResErrTag[old(hcN[0])] && payload(err) == hcResErr[old(hcN[0])] && hcSawFlagNonce[old(hcN[0])] == old(trFlagNonce[layer(ctx)]) && hcSawFlagPaid[old(hcN[0])] == old(trFlagPaid[layer(ctx)]) && hcSawSeq[old(hcN[0])] == old(acctSeq[layer(ctx)])) || (hcN[0] == old(hcN[0]) && err != nil && newCtx == ctx))
 //@   ensures[C16.needs_proof] !single(payload(tx)) ==> ((hcN[0] == old(hcN[0]) + 1) == (forall i int :: (0 <= i && i < txNMsgs(payload(tx)) && isVestingCreate(txMsgTag(payload(tx), i))) ==> old(vauthProof[layer(ctx)])[bech32Bytes(vestTo(txMsgTag(payload(tx), i), txMsgObj(payload(tx), i)))]))
 //@ loop 1
-//@   invariant -1 <= rangeindex && hcN[0] == old(hcN[0]) && vauthProof[layer(ctx)] == old(vauthProof[layer(ctx)]) && (forall j int :: (0 <= j && j <= rangeindex && isVestingCreate(txMsgTag(payload(tx), j))) ==> vauthProof[layer(ctx)][bech32Bytes(vestTo(txMsgTag(payload(tx), j), txMsgObj(payload(tx), j)))])
+//@   invariant -1 <= rangeindex && rangeindex < txNMsgs(payload(tx)) && hcN[0] == old(hcN[0]) && vauthProof[layer(ctx)] == old(vauthProof[layer(ctx)]) && (forall j int :: (0 <= j && j <= rangeindex && isVestingCreate(txMsgTag(payload(tx), j))) ==> vauthProof[layer(ctx)][bech32Bytes(vestTo(txMsgTag(payload(tx), j), txMsgObj(payload(tx), j)))])
